@@ -134,6 +134,26 @@ class Transport(object):
         from suds.transport.options import Options
         self.options = Options()
 
+    def __deepcopy__(self, memo):
+        """
+        A copy gets its own options holding the same values.
+
+        The options object is linked to the options of the client using this
+        transport, so it must not be copied member by member with the rest.
+
+        """
+        from copy import deepcopy
+        from suds.properties import Unskin
+        from suds.transport.options import Options
+        clone = self.__class__.__new__(self.__class__)
+        memo[id(self)] = clone
+        for name, value in list(self.__dict__.items()):
+            if name != "options":
+                setattr(clone, name, deepcopy(value, memo))
+        clone.options = Options()
+        Unskin(clone.options).update(Unskin(self.options))
+        return clone
+
     def open(self, request):
         """
         Open the URL in the specified request.
